@@ -39,8 +39,29 @@ class Driver:
             raw = None
         else:
             raw = list(pairs)
+        self.source = raw if form == 2 else None
+        self.source_items = list(raw.multi_items()) if form == 2 else None
         self.m = MutableMultiMapping(raw)
         self.universe = sorted(set(km.values()))
+
+    def snapshot_siblings(self):
+        """mappings built FROM this instance (and the one it was built from) are independent objects"""
+        from baize.datastructures import QueryParams, FormData, MutableMultiMapping
+        sib = [QueryParams(self.m), FormData(self.m), MutableMultiMapping(self.m)]
+        if self.source is not None:
+            sib.append(self.source)
+        return [(o, [tuple(p) for p in o.multi_items()], list(o), {k: o.getlist(k) for k in self.universe}) for o in sib]
+
+    @staticmethod
+    def siblings_changed(snap):
+        for o, items, keys, lists in snap:
+            now = [tuple(p) for p in o.multi_items()]
+            if now != items or list(o) != keys or any(o.getlist(k) != v for k, v in lists.items()):
+                return "%s built from the mapping changed when the mapping was mutated: %r -> %r" % (type(o).__name__, items, now)
+            for k, v in lists.items():
+                if (k in o) != bool(v) or (v and o[k] != v[-1]):
+                    return "%s built from the mapping became inconsistent after the mapping was mutated" % type(o).__name__
+        return None
 
     def views(self):
         m = self.m
@@ -262,10 +283,14 @@ def replay_graph(ctx, g):
                 d.call(pn, pa)
                 calls.append(l)
             pre = d.views()
+            snap = d.snapshot_siblings()
             ret = d.call(name, args)
             post = d.views()
             calls.append(lab)
             failed = clauses(d, name, args, pre, post, ret) + sibling_views(d, post)
+            alias = d.siblings_changed(snap)
+            if alias:
+                failed.append(alias)
             exp = expect(g.state(b), km, vm)
             obs = {"items": post["items"], "dict": post["dict"], "ret": ret}
             case = {"init": [list(p) for p in g.state(init)["lst"]], "calls": calls, "keys": km, "vals": vm}
